@@ -28,7 +28,7 @@ import (
 // and every retained user snapshot must be unchanged.
 func RunCleanerLoop(e *Engine, rounds int, ipA, ipB int) {
 	r := e.R
-	blocks := r.Range(16, 48)
+	blocks := r.Range(64, 96)
 	e.Cfg = map[string]interface{}{"blocks": blocks, "profile": "C11-cleaner-loop", "rounds": rounds}
 	if err := e.Create(int64(blocks)*Block, r.Bool()); err != nil {
 		e.Res.Inconclusive = append(e.Res.Inconclusive, "cleaner loop: create: "+err.Error())
@@ -38,12 +38,13 @@ func RunCleanerLoop(e *Engine, rounds int, ipA, ipB int) {
 	// chain: base, then automatic snapshots each holding blocks nobody overwrites later, a user snapshot, more automatic ones
 	nb := blocks
 	for i := 0; i < 7 && !e.Dead; i++ {
+		// every snapshot holds blocks that no later write touches: deleting it without merging loses live data
 		for k := 0; k < 3; k++ {
-			b := (i*5 + k*2) % nb
-			e.Write(int64(b)*Block, Block)
+			e.Write(int64(i*8+k)*Block+int64(r.Intn(4))*Sector, Block-int64(r.Intn(4))*Sector)
 		}
-		o, l, _ := e.GenRange()
-		e.Write(o, l)
+		// plus some traffic in a shared region
+		b := 56 + r.Intn(nb-57)
+		e.Write(int64(b)*Block, int64(r.Range(1, 8))*Sector)
 		e.Snapshot(i == 3)
 	}
 	if e.Dead {
@@ -101,6 +102,7 @@ func RunCleanerLoop(e *Engine, rounds int, ipA, ipB int) {
 	}
 	task := jsync.NewTask("http://" + ip + ":9501")
 	e.rec(Op{K: "cleaner-loop-start", Name: latest})
+	e.Retag = "C11"
 	go task.InternalSnapshotCleaner(e.Srv, repClient)
 	for round := 0; round < rounds && !e.Dead; round++ {
 		before := len(e.M.Chain)
